@@ -90,6 +90,14 @@ def _strip_runtime(view: dict[str, Any]) -> dict[str, Any]:
     return v
 
 
+def _strip_file(view: dict[str, Any]) -> dict[str, Any]:
+    """Remove the file path of a file-based cache (a twin uses its own file)."""
+    v = dict(view)
+    if isinstance(v.get("cache"), dict):
+        v["cache"] = {k: x for k, x in v["cache"].items() if k != "file"}
+    return v
+
+
 # --------------------------------------------------------------------------- discipline cases
 
 
@@ -197,7 +205,29 @@ def run_discipline_case(case: dict[str, Any], tmp: Path) -> Outcome:
         out.fail("shared-state", "mutable objects shared by original and copy: " + "; ".join(shared[:4]))
 
     # ---- (d') using the copy leaves the original untouched; (e) same behaviour
+    # Reference of the behaviour: the original itself; with a file-based cache the original and the copy
+    # are attached to the same file and node (by design), so the reference is a *twin*: the same recipe
+    # with the same life on its own file, never serialized.
     file_cache = case.get("cache") == "HDF5Cache"
+    if file_cache:
+        try:
+            ref = build_discipline(case, tmp)
+            if moment in ("executed", "linearized"):
+                for x in pre_inputs:
+                    ref.execute(dict(x))
+            if moment == "linearized":
+                ref.linearize(dict(pre_inputs[-1]), compute_all_jacobians=True)
+        except Exception as e:  # noqa: BLE001
+            out.status = "skipped"
+            out.detail = f"twin cannot be built: {type(e).__name__}: {e}"
+            return out
+        dd = OBS.diff_views(_strip_file(_strip_runtime(view0)), _strip_file(_strip_runtime(OBS.discipline_view(ref))))
+        if dd:
+            out.status = "skipped"
+            out.detail = "recipe is not deterministic (twin differs from the original): " + "; ".join(dd[:2])
+            return out
+    else:
+        ref = disc
     n_post = int(case.get("n_post", 2))
     post_inputs = [gen_inputs(disc, rng) for _ in range(n_post)]
     if moment != "fresh" and pre_inputs:
@@ -214,7 +244,7 @@ def run_discipline_case(case: dict[str, Any], tmp: Path) -> Outcome:
             dd = OBS.diff_views(before, after)
             if dd:
                 out.fail("copy-affects-original", "executing the copy changed the original: " + "; ".join(dd[:3]))
-        ro, mo = _exec_view(disc, x)
+        ro, mo = _exec_view(ref, x)
         if ro != rc:
             xs = {k: np.asarray(v).tolist() for k, v in x.items()}
             if ro[0] == "exc" or rc[0] == "exc":
@@ -222,7 +252,7 @@ def run_discipline_case(case: dict[str, Any], tmp: Path) -> Outcome:
             else:
                 out.fail("execute-differs", f"execute({xs}): " + "; ".join(OBS.diff_views(ro[1], rc[1])[:3]))
         if moment == "linearized" or case.get("post_linearize", True):
-            jo, mo = _lin_view(disc, x)
+            jo, mo = _lin_view(ref, x)
             jc, mc = _lin_view(copy, x)
             if jo != jc:
                 xs = {k: np.asarray(v).tolist() for k, v in x.items()}
@@ -231,8 +261,21 @@ def run_discipline_case(case: dict[str, Any], tmp: Path) -> Outcome:
                 else:
                     out.fail("linearize-differs", f"linearize({xs}): " + "; ".join(OBS.diff_views(jo[1], jc[1])[:3]))
         first = False
+    if file_cache and copy.cache is not None and type(copy.cache).__name__ == "HDF5Cache":
+        # the copy stays attached to the file: what it cached is on the disk, at the original's file and node
+        try:
+            from gemseo.caches.hdf5_cache import HDF5Cache
+
+            re_attached = HDF5Cache(hdf_file_path=view0["cache"]["file"], hdf_node_path=view0["cache"]["node"])
+            a, b = OBS.cache_view(copy.cache)["entries"], OBS.cache_view(re_attached)["entries"]
+            if a != b:
+                out.fail("file-cache-detached", f"entries seen by the copy ({len(a)}) are not the entries of the original's file and node ({len(b)})")
+        except Exception as e:  # noqa: BLE001
+            out.fail("file-cache-detached", f"re-attaching to the original's file raises {type(e).__name__}: {e}")
     try:
-        va, vb = _strip_runtime(OBS.discipline_view(disc)), _strip_runtime(OBS.discipline_view(copy))
+        va, vb = _strip_runtime(OBS.discipline_view(ref)), _strip_runtime(OBS.discipline_view(copy))
+        if file_cache:
+            va, vb = _strip_file(va), _strip_file(vb)
         dd = OBS.diff_views(va, vb)
         if dd:
             out.fail("view-differs-after-use:" + dd[0].split(":")[0].strip("/").split("/")[0], "after the same usage: " + "; ".join(dd[:3]))
